@@ -313,6 +313,8 @@ func runC04(c *Ctx) {
 		c.Check("C04.T2", "GetCommitment:other-types-error", okAll, f.Pos(), "create and unknown types yield an error")
 	}
 	c.Min("C04.T2", 4+6)
+	// commitments and reveal values hash the canonical JWK: the JCS constant/table rules are part of this check
+	c.jcsRules()
 	c.Assume("axioms: go-multihash Decode(Encode(x,c)) = (c,x); base64 decode(encode(x)) = x; hash functions are collision resistant; encoding/json emits every tagged field of jws.JWK")
 }
 
